@@ -82,6 +82,10 @@ pub struct Sim {
     pub pending_ips: Option<SmallVec<IpAddr, 4>>,
     pub io_errors: Vec<String>,
     pub defer_apply: bool,
+    /// short-send lane: receiver ends of the AF_UNIX datagram socket pairs standing in for uplinks
+    pub unix_peers: Vec<(IpAddr, std::os::unix::net::UnixDatagram)>,
+    pub unix_queue: Arc<std::sync::Mutex<Vec<(IpAddr, Vec<u8>)>>>,
+    pub unix_tasks: Vec<tokio::task::JoinHandle<()>>,
 }
 
 pub fn link_ip(i: usize) -> IpAddr {
@@ -167,7 +171,57 @@ impl Sim {
             pending_ips: None,
             io_errors: Vec::new(),
             defer_apply: false,
+            unix_peers: Vec::new(),
+            unix_queue: Arc::new(std::sync::Mutex::new(Vec::new())),
+            unix_tasks: Vec::new(),
         }
+    }
+
+    /// Short-send lane: replace every uplink's UDP socket by one end of an AF_UNIX SOCK_DGRAM socket pair
+    /// whose send buffer is the kernel minimum, wrapped in the real `BatchUdpSocket`. `sendmmsg` then
+    /// accepts only a couple of datagrams per call (the rest: EAGAIN), which exercises the short-send loop
+    /// of `send_all_datagrams` that loopback UDP never reaches. A drainer task per link (on this thread's
+    /// runtime, so it runs exactly while an arm awaits writability) empties the peer end in order.
+    pub fn use_short_send_sockets(&mut self) -> bool {
+        use socket2::{Domain, Socket, Type};
+        let mut ok = true;
+        for c in self.conns.iter() {
+            let Some(io) = self.conn_io.get_mut(&c.conn_id) else { continue };
+            let Ok((a, b)) = Socket::pair(Domain::UNIX, Type::DGRAM, None) else {
+                ok = false;
+                continue;
+            };
+            let _ = a.set_nonblocking(true);
+            let _ = b.set_nonblocking(true);
+            let _ = a.set_send_buffer_size(1);
+            let ip = c.local_ip;
+            let std_b: std::os::unix::net::UnixDatagram = b.into();
+            let Ok(dup) = std_b.try_clone() else {
+                ok = false;
+                continue;
+            };
+            let q = self.unix_queue.clone();
+            let res = rt::block_on(async {
+                let sock = srtla_send::net::BatchUdpSocket::new(a)?;
+                let ud = tokio::net::UnixDatagram::from_std(std_b)?;
+                let h = tokio::spawn(async move {
+                    let mut buf = vec![0u8; 4096];
+                    while let Ok(n) = ud.recv(&mut buf).await {
+                        q.lock().unwrap().push((ip, buf[..n].to_vec()));
+                    }
+                });
+                Ok::<_, std::io::Error>((sock, h))
+            });
+            match res {
+                Ok((sock, h)) => {
+                    io.socket = Arc::new(sock);
+                    self.unix_peers.push((ip, dup));
+                    self.unix_tasks.push(h);
+                }
+                Err(_) => ok = false,
+            }
+        }
+        ok
     }
 
     pub fn set_now(&mut self, t: u64) {
@@ -303,7 +357,18 @@ impl Sim {
     /// arrival order, with the source address (identifies the uplink).
     pub fn drain_rx(&mut self) -> Vec<(SocketAddr, Vec<u8>)> {
         let mut out = Vec::new();
-        let mut buf = [0u8; 2048];
+        let mut buf = [0u8; 4096];
+        if !self.unix_peers.is_empty() {
+            // what the drainer tasks read while the arm was running, then what is still in the socket buffers
+            for (ip, b) in self.unix_queue.lock().unwrap().drain(..) {
+                out.push((SocketAddr::new(ip, 0), b));
+            }
+            for (ip, s) in self.unix_peers.iter() {
+                while let Ok(n) = s.recv(&mut buf) {
+                    out.push((SocketAddr::new(*ip, 0), buf[..n].to_vec()));
+                }
+            }
+        }
         loop {
             match self.rx.recv_from(&mut buf) {
                 Ok((n, src)) => out.push((src, buf[..n].to_vec())),
@@ -363,6 +428,9 @@ impl Drop for Sim {
     fn drop(&mut self) {
         for (_, r) in self.readers.drain() {
             r.handle.abort();
+        }
+        for h in self.unix_tasks.drain(..) {
+            h.abort();
         }
         // let the runtime reap the aborted reader tasks (they hold socket Arcs)
         rt::block_on(async {
